@@ -901,6 +901,29 @@ func checkECDSAPublic(cv ecCurve) {
 		{"odd.x", odd[0]}, {"odd.y", odd[1]}, {"nonresidue.x", nonres},
 		{"small.x", small}, {"small.y", smallY}, {"G.x", c.Gx}, {"G.y", c.Gy},
 	}
+	// the other numeric boundary of the key format: the group order n (< p on both curves). Values in
+	// [n, p) are perfectly good coordinates; the largest x-coordinate below p and the smallest one
+	// >= n are valid points inside that band.
+	var top, band *big.Int
+	for x := new(big.Int).Sub(p, one); top == nil; x = new(big.Int).Sub(x, one) {
+		if _, ok := c.DecompressY(x, false); ok {
+			top = x
+		}
+	}
+	for x := new(big.Int).Set(c.N); band == nil; x = new(big.Int).Add(x, one) {
+		if _, ok := c.DecompressY(x, false); ok {
+			band = x
+		}
+	}
+	topY, _ := c.DecompressY(top, false)
+	bandY, _ := c.DecompressY(band, true)
+	for _, e := range []struct {
+		n string
+		v *big.Int
+	}{{"n-1", new(big.Int).Sub(c.N, one)}, {"n", c.N}, {"n+1", new(big.Int).Add(c.N, one)},
+		{"top.x", top}, {"top.y", topY}, {"-top.y", new(big.Int).Sub(p, topY)}, {"band.x", band}, {"band.y", bandY}} {
+		vals = append(vals, e)
+	}
 	if yb, ok := c.DecompressY(big.NewInt(0), false); ok {
 		vals = append(vals, struct {
 			n string
@@ -1224,7 +1247,7 @@ func main() {
 		"BLS/ECDSA private keys: every length 0..200 (truncation, tail, zero/garbage/leading-zero extension) + 10 boundary values + all 512 single-bit flips of order-1 and of a generated key. "+
 		"G2 (DecodePublicKey, DecodePublicKeyCompressed, DKG verification-vector elements 0 and 1): 8 flag settings x 18x18 grid of half values {0,1,p-1,p,p+1,2^381-1, coefficients of a valid point, of the generator, of a non-residue x, of a point outside G2, of g2+T13, of T13}; infinity/other headers with a non-zero byte (01,80,ff) at each of 96 positions; all 768 single-bit flips of each valid encoding in both byte orders; every length 0..200; off-group points. Each string is judged in the cited ZCash order and in the c0||c1 order. "+
 		"G1 sites (Verify, VerifyBLSSignatureOneMessage, VerifyBLSSignatureManyMessages, BatchVerifyBLSSignaturesOneMessage, SPOCKVerifyAgainstData, SPOCKVerify both positions, AggregateBLSSignatures single/first/last, BLSReconstructThresholdSignature position 0/1): the C01 candidate family (valid, 384 bit flips, -s, s+T3/T11/T33/cofactor, s+-g1, s+-H, 2s, x+p, 8 flag settings, uncompressed, infinity with a non-zero byte at each position with and without sign bit, every length 0..200). "+
-		"ECDSA public keys on P-256 and secp256k1: raw 64-byte = all pairs over {0,1,p-1,p,p+1,2^256-1, coordinates of valid points, non-residue x, x+p aliases}; compressed = all 256 prefix bytes x the same x values; all single-bit flips of two valid encodings; every length 0..200; SEC1 65-byte forms. "+
+		"ECDSA public keys on P-256 and secp256k1: raw 64-byte = all pairs over {0,1,p-1,p,p+1,2^256-1, n-1,n,n+1, coordinates of valid points incl. the largest x below p and the smallest x >= n (the band [n,p) between group order and field prime), non-residue x, x+p aliases}; compressed = all 256 prefix bytes x the same x values; all single-bit flips of two valid encodings; every length 0..200; SEC1 65-byte forms. "+
 		"Produced objects (generated, decoded, aggregated, removed, identity, threshold-keygen, Feldman-VSS and Joint-Feldman outputs, signatures, PoPs, SPoCK proofs, reconstructed signatures) are re-decoded and compared with Equals and bytes. "+
 		"A case is distinct/non-trivial when it is a distinct byte string of the decoder's nominal length (it passes the length gate) or a distinct produced object.")
 	checkPrivateKeys(crypto.BLSBLS12381, "BLS", refbls.R)
